@@ -408,6 +408,132 @@ Definition pev_of (J : Z) (m : msg) : list pev :=
   else [].
 
 (* ================================================================== *)
+(* The SYN channel as ONE stream shared by the successive jobs of a worker (what a real
+   queue is): whatever the SYN wait of a job leaves unread is still there when the next job
+   waits.  [q_syn q] is what becomes readable for job q (empty polls, then the parent's
+   answer); [pend] is what earlier jobs left behind.  Proofs/WorkerProofs.shared_stream_eq:
+   when every job's segment is consumed to its end by its own wait ([syn_closed]) this loop
+   IS [loop], i.e. every answer is consumed by the job it was sent for. *)
+Fixpoint wait_for_syn_s (l : list (rcv Z)) : syn_out * nat * list (rcv Z) :=
+  match l with
+  | [] => (SynStarved, 1%nat, [])
+  | e :: r =>
+    match protected_receive e with
+    | RoExit c => (SynExit c, 1%nat, r)
+    | RoNone | RoFalsy => let '(o, n, rest) := wait_for_syn_s r in (o, S n, rest)
+    | RoMsg ty => (match syn_decide ty with
+                   | Some true => SynTrue | Some false => SynFalse | None => SynAssert
+                   end, 1%nat, r)
+    end
+  end.
+
+Definition syn_result_s (c : cfg) (q : req) (pend : list (rcv Z))
+  : syn_out * nat * list (rcv Z) :=
+  if has_syn c then wait_for_syn_s (pend ++ q_syn q) else (SynTrue, O, pend).
+
+(* the segment of q is read to its end by q's own wait *)
+Definition syn_closed (q : req) : bool :=
+  match snd (wait_for_syn_s (q_syn q)) with [] => true | _ => false end.
+
+(* the first answer (truthy message) of a SYN script, if the wait gets that far *)
+Fixpoint first_answer (l : list (rcv Z)) : option Z :=
+  match l with
+  | [] => None
+  | e :: r => match protected_receive e with
+              | RoMsg ty => Some ty
+              | RoNone | RoFalsy => first_answer r
+              | RoExit _ => None
+              end
+  end.
+
+Definition accept_events_n (c : cfg) (q : req) (n : nat) : list ev :=
+  [EInq; ENow; EPut (ack_msg c q)] ++ repeat ESyn n.
+
+Definition pre_s (l : list ev) (t : list ev * exit * Z * list (rcv Z))
+  : list ev * exit * Z * list (rcv Z) :=
+  let '(l', x, n, p) := t in (l ++ l', x, n, p).
+
+Fixpoint loop_s (c : cfg) (completed : Z) (ins : list (rcv req)) (pend : list (rcv Z))
+         {struct ins} : list ev * exit * Z * list (rcv Z) :=
+  if guard (maxtasks c) completed then
+    match ins with
+    | [] => ([EInq], XStarved, completed, pend)
+    | e :: rest =>
+      match protected_receive e with
+      | RoExit code => ([EInq], XSysExit code, completed, pend)
+      | RoNone | RoFalsy => pre_s [EInq] (loop_s c completed rest pend)
+      | RoMsg q =>
+        if negb (task_ok (q_ty q)) then ([EInq], XAssert, completed, pend) else
+        let '(so, k, pend') := syn_result_s c q pend in
+        let acc := accept_events_n c q k in
+        match so with
+        | SynFalse => pre_s acc (loop_s c completed rest pend')
+        | SynExit code => (acc, XSysExit code, completed, pend')
+        | SynAssert => (acc, XAssert, completed, pend')
+        | SynStarved => (acc, XStarved, completed, pend')
+        | SynTrue =>
+          match task_escapes q with
+          | Some x => (acc ++ [ERun (q_job q) (q_i q)], x, completed, pend')
+          | None =>
+            if mem_exceeded (eff_maxmem c) (q_mem q)
+            then (acc ++ exec_events c q, XReturn EX_RECYCLE, completed + 1, pend')
+            else pre_s (acc ++ exec_events c q) (loop_s c (completed + 1) rest pend')
+          end
+        end
+      end
+    end
+  else ([], XReturn (exit_status (maxtasks c) completed), completed, pend).
+
+Definition workloop_s (c : cfg) (ins : list (rcv req))
+  : list ev * exit * Z * (bool * nat * nat) :=
+  let '(l, x, n, _) := loop_s c 0 ins [] in (l, x, n, ensure (counter c) n).
+
+(* ================================================================== *)
+(* Closed handshake: worker and parent together.  What arrives on the SYN channel for a
+   job is the parent's reaction to that job's ACK.  Two independent switches exist in the
+   code: the pool's `synack` flag ([has_send_ack]: ApplyResult gets Pool.send_ack) and
+   whether the workers were given a SYN queue ([has_syn]: Pool.get_process_queues);
+   [delivers] says whether the pool's send_ack actually writes the response to the worker's
+   SYN pipe.  Plain billiard: send_ack is `pass` and get_process_queues returns synq=None,
+   i.e. has_syn = false and delivers = false whatever synack is; a pool that implements
+   the handshake (celery's AsynPool) overrides both. *)
+Record hjob := mk_hjob {
+  hj_req : req;        (* q_syn = the polls made before the answer becomes readable *)
+  hj_cancel : bool }.  (* cancelled before the parent processes the ACK *)
+
+Definition with_syn (q : req) (l : list (rcv Z)) : req :=
+  mk_req (q_ty q) (q_job q) (q_i q) (q_t q) (q_beh q) l (q_mem q) (q_term q).
+
+(* the handle of a job at the moment its ACK is processed *)
+Definition ar_at_ack (cancel : bool) : ar := mk_ar false cancel None None false true.
+
+Definition responses (o : list pout) : list (rcv Z) :=
+  flat_map (fun e => match e with OSendAck r _ _ => [RMsg r] | _ => [] end) o.
+
+Definition syn_answer (pc : pcfg) (delivers : bool) (c : cfg) (h : hjob) : list (rcv Z) :=
+  if delivers
+  then responses (snd (p_ack pc (ar_at_ack (hj_cancel h)) (q_t (hj_req h)) (eff_pid c)
+                             (synfd c) false))
+  else [].
+
+Definition hs_req (pc : pcfg) (delivers : bool) (c : cfg) (h : hjob) : req :=
+  with_syn (hj_req h) (q_syn (hj_req h) ++ syn_answer pc delivers c h).
+
+Definition hs_in (pc : pcfg) (delivers : bool) (c : cfg) (e : rcv hjob) : rcv req :=
+  match e with
+  | RShutdown => RShutdown | RTimeout => RTimeout | REintr => REintr | REof => REof
+  | RIOErr => RIOErr | RNoneMsg => RNoneMsg | RFalsy => RFalsy
+  | RMsg h => RMsg (hs_req pc delivers c h)
+  end.
+Definition hs_ins (pc : pcfg) (delivers : bool) (c : cfg) (l : list (rcv hjob)) : list (rcv req) :=
+  map (hs_in pc delivers c) l.
+
+(* the parent's handling of job J: the cancellation (if any) comes first, then the worker's
+   messages for J in pipe order *)
+Definition hs_parent (pc : pcfg) (J : Z) (cancel : bool) (wl : list ev) : ar * list pout :=
+  p_run pc (ar_init pc) ((if cancel then [PCancel] else []) ++ flat_map (pev_of J) (puts wl)).
+
+(* ================================================================== *)
 (* equality tests for the correspondence check                          *)
 Definition res_eqb (a b : res) : bool :=
   match a, b with
@@ -472,7 +598,10 @@ Definition pobs := (list pout * bool * option Z * option Z * bool * bool * list 
 Inductive case :=
 | WCase (c : cfg) (ins : list (rcv req)) (o : wobs)
 | CCase (c : cfg) (ins : list (rcv req)) (o : wobs) (co : cobs)   (* via Worker.__call__ *)
-| PCase (pc : pcfg) (evs : list pev) (o : pobs).
+| PCase (pc : pcfg) (evs : list pev) (o : pobs)
+| SCase (c : cfg) (ins : list (rcv req)) (o : wobs)     (* one SYN stream shared by the jobs *)
+| HCase (pc : pcfg) (delivers : bool) (c : cfg) (ins : list (rcv hjob)) (o : wobs)
+        (po : list (Z * bool * pobs)).   (* closed handshake: per job id (cancelled?, parent obs) *)
 
 (* 0 = identical.  2 = the property-relevant observable differs: for the worker the
    protocol events (messages written, task executions), how the loop ended, the
@@ -480,9 +609,9 @@ Inductive case :=
    trace is rejected by the protocol monitor; for the parent the callbacks / responses
    / ownership record.  1 = only bookkeeping events (polls, clock and memory reads,
    number of counter polls) differ. *)
-Definition check_worker (c : cfg) (ins : list (rcv req)) (o : wobs) : Z :=
+Definition check_worker_against (r : list ev * exit * Z * (bool * nat * nat)) (o : wobs) : Z :=
   let '(il, ix, icomp, iens, ireads, isleeps) := o in
-  let '(l, x, n, (b, reads, sleeps)) := workloop c ins in
+  let '(l, x, n, (b, reads, sleeps)) := r in
   if negb (monitor il) then 2
   else if negb (list_eqb ev_eqb (proto il) (proto l)) then 2
   else if negb (exit_eqb ix x) then 2
@@ -491,7 +620,18 @@ Definition check_worker (c : cfg) (ins : list (rcv req)) (o : wobs) : Z :=
   else if list_eqb ev_eqb il l && (ireads =? Z.of_nat reads) && (isleeps =? Z.of_nat sleeps)
   then 0 else 1.
 
+Definition check_worker (c : cfg) (ins : list (rcv req)) (o : wobs) : Z :=
+  check_worker_against (workloop c ins) o.
+
 Definition zz_eqb := pair_eqb Z.eqb Z.eqb.
+
+Definition check_parent (r : ar * list pout) (o : pobs) : Z :=
+  let '(io, iacc, ipid, itime, iready, icache, ipids) := o in
+  let (s, o) := r in
+  if list_eqb pout_eqb io o && Bool.eqb iacc (accepted s) && oz_eqb ipid (worker_pid s)
+     && oz_eqb itime (time_accepted s) && Bool.eqb iready (is_ready s)
+     && Bool.eqb icache (in_cache s) && list_eqb Z.eqb ipids (worker_pids s)
+  then 0 else 2.
 
 Definition check_case (k : case) : Z :=
   match k with
@@ -504,10 +644,14 @@ Definition check_case (k : case) : Z :=
     if opt_eqb zz_eqb ionexit (Some who) && opt_eqb zz_eqb ideath (Some who)
        && opt_eqb Z.eqb iosexit (Some st)
     then (if isleep1 then w else 1) else 2
-  | PCase pc evs (io, iacc, ipid, itime, iready, icache, ipids) =>
-    let (s, o) := p_run pc (ar_init pc) evs in
-    if list_eqb pout_eqb io o && Bool.eqb iacc (accepted s) && oz_eqb ipid (worker_pid s)
-       && oz_eqb itime (time_accepted s) && Bool.eqb iready (is_ready s)
-       && Bool.eqb icache (in_cache s) && list_eqb Z.eqb ipids (worker_pids s)
-    then 0 else 2
+  | PCase pc evs o => check_parent (p_run pc (ar_init pc) evs) o
+  | SCase c ins o => check_worker_against (workloop_s c ins) o
+  | HCase pc dl c hins o po =>
+    let r := workloop_s c (hs_ins pc dl c hins) in
+    let w := check_worker_against r o in
+    if w =? 2 then 2 else
+    let wl := fst (fst (fst r)) in
+    if forallb (fun jo => let '(J, cancel, ob) := jo in
+                          check_parent (hs_parent pc J cancel wl) ob =? 0) po
+    then w else 2
   end.
